@@ -263,3 +263,121 @@ theorem invCheck_iff_Inv (s : State) : invCheck s = none ↔ Inv s := by
       (cVpn_iff s).mpr c.vpn, (cFresh_iff s).mpr c.fresh, (cVpnReady_iff s).mpr c.vpnReady⟩
 
 end Nebula.HostMap
+
+namespace Nebula.HostMap
+open FMap Nebula.Spec.HostMap
+
+/-! ### the step relation -/
+
+/-- `h` is referenced from some map of the main hostmap -/
+def MainRef (s : State) (h : Nat) : Prop :=
+  (∃ a, h ∈ hostList s a) ∨ (∃ i, s.indexes.get i = some h) ∨ (∃ i, s.rindexes.get i = some h) ∨
+  (∃ i, s.relays.get i = some h)
+
+/-- `h` is referenced from the pending side of the handshake manager -/
+def PendRef (s : State) (h : Nat) : Prop := (∃ a, s.vpnIps.get a = some h) ∨ (∃ i, s.pidx.get i = some h)
+
+/-- What every operation must respect (C28 "never brought back", C29 "only released by the owner"); `fresh` are the
+tunnels the operation is allowed to bring into the main hostmap. -/
+structure Step (pre post : State) (fresh : List Nat) : Prop where
+  noRes : ∀ h, MainRef post h → MainRef pre h ∨ h ∈ fresh
+  idx : ∀ i h, pre.indexes.get i = some h → post.indexes.get i = some h ∨ ¬ MainRef post h
+  rel : ∀ i h, pre.relays.get i = some h → post.relays.get i = some h ∨ ¬ MainRef post h
+  pidx : ∀ i h, pre.pidx.get i = some h →
+    post.pidx.get i = some h ∨ post.indexes.get i = some h ∨ ¬ (MainRef post h ∨ PendRef post h)
+  ridx : ∀ r h, pre.rindexes.get r = some h →
+    post.rindexes.get r = some h ∨ ¬ MainRef post h ∨ ∃ h', post.rindexes.get r = some h' ∧ h' ∈ fresh
+
+theorem mem_valsG_iff {β : Type} (m : FMap β) (v : β) : v ∈ valsG m ↔ ∃ k, m.get k = some v := by
+  unfold valsG
+  simp only [List.mem_filterMap]
+  constructor
+  · rintro ⟨k, _, hk⟩; exact ⟨k, hk⟩
+  · rintro ⟨k, hk⟩; exact ⟨k, mem_keys_of_get hk, hk⟩
+
+theorem mem_mainRefs_iff (s : State) (h : Nat) : h ∈ mainRefs s ↔ MainRef s h := by
+  unfold mainRefs MainRef
+  simp only [List.mem_append, List.mem_flatMap, mem_valsG_iff, or_assoc]
+  constructor
+  · rintro (⟨a, _, ha⟩ | r)
+    · exact Or.inl ⟨a, ha⟩
+    · exact Or.inr r
+  · rintro (⟨a, ha⟩ | r)
+    · exact Or.inl ⟨a, mem_addrsOf_of_mem ha, ha⟩
+    · exact Or.inr r
+
+theorem mem_pendingRefs_iff (s : State) (h : Nat) : h ∈ pendingRefs s ↔ PendRef s h := by
+  unfold pendingRefs PendRef
+  simp only [List.mem_append, mem_valsG_iff]
+
+/-- **the run-time transition oracle decides the step relation** -/
+theorem stepCheck_iff_Step (pre post : State) (fresh : List Nat) :
+    stepCheck pre post fresh = none ↔ Step pre post fresh := by
+  unfold stepCheck
+  rw [firstFailing_none]
+  simp only [stepClauses, List.mem_cons, List.not_mem_nil, or_false, forall_eq_or_imp, forall_eq]
+  unfold sNoResurrect sIdx sRel sPidx sRidx
+  simp only [allEntries_iff, List.all_eq_true, Bool.or_eq_true, List.contains_iff_mem, beq_iff_eq, Bool.not_eq_true',
+    mem_mainRefs_iff]
+  constructor
+  · rintro ⟨h1, h2, h3, h4, h5⟩
+    refine ⟨fun h hm => h1 h hm, fun i h e => ?_, fun i h e => ?_, fun i h e => ?_, fun r h e => ?_⟩
+    · rcases h2 i h e with p | p
+      · exact Or.inl p
+      · right; intro hm
+        have := (mem_mainRefs_iff post h).mpr hm
+        simp [List.contains_iff_mem, this] at p
+    · rcases h3 i h e with p | p
+      · exact Or.inl p
+      · right; intro hm
+        have := (mem_mainRefs_iff post h).mpr hm
+        simp [List.contains_iff_mem, this] at p
+    · rcases h4 i h e with (p | p) | p
+      · exact Or.inl p
+      · exact Or.inr (Or.inl p)
+      · right; right; intro hm
+        have : h ∈ mainRefs post ++ pendingRefs post := by
+          rw [List.mem_append, mem_mainRefs_iff, mem_pendingRefs_iff]; exact hm
+        simp [List.contains_iff_mem, this] at p
+    · rcases h5 r h e with (p | p) | p
+      · exact Or.inl p
+      · right; left; intro hm
+        have := (mem_mainRefs_iff post h).mpr hm
+        simp [List.contains_iff_mem, this] at p
+      · right; right
+        cases hg : post.rindexes.get r with
+        | none => simp [hg] at p
+        | some h' => exact ⟨h', rfl, by simpa [hg] using p⟩
+  · intro st
+    refine ⟨fun h hm => st.noRes h hm, fun i h e => ?_, fun i h e => ?_, fun i h e => ?_, fun r h e => ?_⟩
+    · rcases st.idx i h e with p | p
+      · exact Or.inl p
+      · right
+        cases hc : (mainRefs post).contains h with
+        | false => rfl
+        | true => exact absurd ((mem_mainRefs_iff post h).mp (List.contains_iff_mem.mp hc)) p
+    · rcases st.rel i h e with p | p
+      · exact Or.inl p
+      · right
+        cases hc : (mainRefs post).contains h with
+        | false => rfl
+        | true => exact absurd ((mem_mainRefs_iff post h).mp (List.contains_iff_mem.mp hc)) p
+    · rcases st.pidx i h e with p | p | p
+      · exact Or.inl (Or.inl p)
+      · exact Or.inl (Or.inr p)
+      · right
+        cases hc : (mainRefs post ++ pendingRefs post).contains h with
+        | false => rfl
+        | true =>
+          have := List.contains_iff_mem.mp hc
+          rw [List.mem_append, mem_mainRefs_iff, mem_pendingRefs_iff] at this
+          exact absurd this p
+    · rcases st.ridx r h e with p | p | ⟨h', p1, p2⟩
+      · exact Or.inl (Or.inl p)
+      · left; right
+        cases hc : (mainRefs post).contains h with
+        | false => rfl
+        | true => exact absurd ((mem_mainRefs_iff post h).mp (List.contains_iff_mem.mp hc)) p
+      · right; simp [p1, p2]
+
+end Nebula.HostMap
